@@ -5,5 +5,5 @@ CONSTANTS
   MaxChunk = 17
   Drain = FALSE
   KeepPartial = TRUE
-INVARIANTS PrefixI AtRestI BoundedI
+INVARIANTS AtRestI
 CHECK_DEADLOCK FALSE
